@@ -54,7 +54,13 @@ pub struct Shared {
     /// until unblocked (action `U`); `None` = no back-pressure
     pub wblock: Option<usize>,
     pub wwaker: Option<Waker>,
+    /// the client wrote more than `WRITE_BUDGET` bytes in one schedule: a write loop that does not end
+    pub runaway: bool,
 }
+
+/// no schedule makes the client write anywhere near this much (requests are a few hundred bytes);
+/// beyond it the transport fails every write and the schedule's outcome is `RUNAWAY`
+const WRITE_BUDGET: usize = 8 << 20;
 
 /// the transport's write acceptance is part of the schedule: it is derived from the schedule's seed
 pub fn wcap_of(seed: u64) -> usize {
@@ -99,6 +105,10 @@ impl AsyncWrite for SimIo {
         let mut s = self.0.lock().unwrap();
         if let Some(k) = s.werr {
             return Poll::Ready(Err(io::Error::new(IO_KINDS[k], "scripted write fault")));
+        }
+        if s.written.len() > WRITE_BUDGET {
+            s.runaway = true;
+            return Poll::Ready(Err(io::Error::new(io::ErrorKind::Other, "write budget exceeded")));
         }
         let mut n = if s.wcap == 0 { b.len() } else { b.len().min(s.wcap) };
         if let Some(left) = s.wblock {
@@ -537,6 +547,9 @@ pub fn run_schedule(pw: Option<String>, actions: &[String], seed: u64) -> String
             segs.push(w.act(a).await);
         }
         segs.push(w.pending());
+        if w.sh.lock().unwrap().runaway {
+            return "RUNAWAY".to_string();
+        }
         segs.join("!")
     })
 }
@@ -878,6 +891,12 @@ pub struct GenCfg {
 /// reported one after the other, then it catches up. Every change must still be delivered, in order
 /// (oracle-only op `loopx`: the model emits events at once and knows nothing about the consumer).
 pub fn gen_burst(r: &mut Rng, n: usize) -> String {
+    gen_burst_for(r, n, "C04")
+}
+
+/// the same burst for C08: while the consumer lags behind, the connection ends (garbage, EOF inside a
+/// reply, a read error) and a request is issued — it must still resolve, and so must a later one
+pub fn gen_burst_for(r: &mut Rng, n: usize, prop: &str) -> String {
     let sel_seed = r.next() % 1_000_000;
     let rt = runtime(sel_seed);
     rt.block_on(async {
@@ -905,15 +924,37 @@ pub fn gen_burst(r: &mut Rng, n: usize) -> String {
                 act(&mut w, &mut sv, &mut actions, format!("d{}", hex(&v))).await;
             }
         }
-        act(&mut w, &mut sv, &mut actions, "R".to_string()).await;
+        if prop == "C08" {
+            // the connection ends while the events are still unread
+            let a = match r.below(4) {
+                0 => "e".to_string(),
+                1 => format!("r{}", r.below(IO_KINDS.len())),
+                2 => format!("d{}", hex(b"@@garbage\n")),
+                _ => format!("d{}", hex(b"changed: player\n")),
+            };
+            let cut = a.starts_with("d6368");
+            act(&mut w, &mut sv, &mut actions, a).await;
+            if cut {
+                act(&mut w, &mut sv, &mut actions, "e".to_string()).await;
+            }
+            act(&mut w, &mut sv, &mut actions, format!("q1:{}", cmd_spec("x", &["late".to_string()]))).await;
+            act(&mut w, &mut sv, &mut actions, "t100".to_string()).await;
+            act(&mut w, &mut sv, &mut actions, "t30000".to_string()).await;
+            act(&mut w, &mut sv, &mut actions, format!("q2:{}", cmd_spec("x", &["later".to_string()]))).await;
+            act(&mut w, &mut sv, &mut actions, "t100".to_string()).await;
+        }
+        // C08: the application never catches up — whether requests resolve must not depend on it
+        if prop != "C08" {
+            act(&mut w, &mut sv, &mut actions, "R".to_string()).await;
+        }
         for _ in 0..3 {
-            if !sv.out.is_empty() {
+            if !sv.out.is_empty() && prop != "C08" {
                 let v: Vec<u8> = sv.out.drain(..).collect();
                 act(&mut w, &mut sv, &mut actions, format!("d{}", hex(&v))).await;
             }
             act(&mut w, &mut sv, &mut actions, "t100".to_string()).await;
         }
-        format!("loopx.C04.{} ~ {}", sel_seed, actions.join(","))
+        format!("loopx.{}.{} ~ {}", prop, sel_seed, actions.join(","))
     })
 }
 
@@ -1392,6 +1433,13 @@ pub fn gen(cfg: &Cfg) -> Vec<String> {
         ops.push(gen_schedule(&mut r, g_here, steps, &cfg.prop, false));
         if cfg.prop == "C04" && i < 2 {
             ops.push(gen_burst(&mut r, 70 + 25 * i));
+        }
+        // more unread events than any plausible queue bound (64, 128, 256 …)
+        if cfg.prop == "C04" && i == 2 {
+            ops.push(gen_burst(&mut r, 300));
+        }
+        if cfg.prop == "C08" && i < 4 {
+            ops.push(gen_burst_for(&mut r, [70, 130, 10, 300][i], "C08"));
         }
         if cfg.prop == "C01" && i == 0 {
             ops.push(gen_request_burst(&mut r, 140));
